@@ -153,14 +153,38 @@ def decodeUtf16 : List Nat → List Char
 
 def swap16 (u : Nat) : Nat := (u % 256) * 256 + u / 256
 
+/-- WHATWG UTF-8 decoder with replacement (one U+FFFD per maximal invalid subpart), as `encoding_rs`:
+    `needed`/`seen`/`cp` are the state of a multi-byte sequence, `lower..upper` the range allowed for the
+    next continuation byte. `fuel ≥ 2 * bytes.length + 1` suffices (an offending byte is reprocessed once). -/
+def decodeUtf8Go : (fuel : Nat) → Bytes → (needed seen cp lower upper : Nat) → List Char
+  | 0, _, _, _, _, _, _ => []
+  | _ + 1, [], needed, _, _, _, _ => if needed = 0 then [] else [replacement]
+  | fuel + 1, b :: rest, needed, seen, cp, lower, upper =>
+    let v := b.toNat
+    if needed = 0 then
+      if v ≤ 0x7F then Char.ofNat v :: decodeUtf8Go fuel rest 0 0 0 0x80 0xBF
+      else if 0xC2 ≤ v ∧ v ≤ 0xDF then decodeUtf8Go fuel rest 1 0 (v % 32) 0x80 0xBF
+      else if 0xE0 ≤ v ∧ v ≤ 0xEF then
+        decodeUtf8Go fuel rest 2 0 (v % 16) (if v = 0xE0 then 0xA0 else 0x80) (if v = 0xED then 0x9F else 0xBF)
+      else if 0xF0 ≤ v ∧ v ≤ 0xF4 then
+        decodeUtf8Go fuel rest 3 0 (v % 8) (if v = 0xF0 then 0x90 else 0x80) (if v = 0xF4 then 0x8F else 0xBF)
+      else replacement :: decodeUtf8Go fuel rest 0 0 0 0x80 0xBF
+    else if v < lower ∨ upper < v then
+      replacement :: decodeUtf8Go fuel (b :: rest) 0 0 0 0x80 0xBF
+    else
+      let cp' := cp * 64 + v % 64
+      if seen + 1 = needed then Char.ofNat cp' :: decodeUtf8Go fuel rest 0 0 0 0x80 0xBF
+      else decodeUtf8Go fuel rest needed (seen + 1) cp' 0x80 0xBF
+
+def decodeUtf8 (b : Bytes) : List Char := decodeUtf8Go (2 * b.length + 1) b 0 0 0 0x80 0xBF
+
 /-- `UTF_16LE.decode(&buf[..64])`: `Encoding::decode` sniffs a byte-order mark first. A UTF-16LE BOM
-    is removed, a UTF-16BE BOM switches the byte order. (A UTF-8 BOM `EF BB BF` switches to UTF-8;
-    that branch is not modelled: it is reported as the name `none`.) -/
-def decodeName64 (b : Bytes) : Option (List Char) :=
+    is removed, a UTF-16BE BOM switches the byte order, a UTF-8 BOM `EF BB BF` switches to UTF-8. -/
+def decodeName64 (b : Bytes) : List Char :=
   match u16s b with
-  | 0xFEFF :: rest => some (decodeUtf16 rest)
-  | 0xFFFE :: rest => some (decodeUtf16 (rest.map swap16))
-  | us => if b.take 3 = [0xEF, 0xBB, 0xBF] then none else some (decodeUtf16 us)
+  | 0xFEFF :: rest => decodeUtf16 rest
+  | 0xFFFE :: rest => decodeUtf16 (rest.map swap16)
+  | us => if b.take 3 = [0xEF, 0xBB, 0xBF] then decodeUtf8 (b.drop 3) else decodeUtf16 us
 
 /-- truncation of the name at the first NUL -/
 def untilNul (cs : List Char) : List Char := cs.takeWhile (· ≠ Char.ofNat 0)
@@ -169,15 +193,13 @@ def untilNul (cs : List Char) : List Char := cs.takeWhile (· ≠ Char.ofNat 0)
 def Dir.fromSlice (buf : Bytes) (sectorSize : Nat) : Res Dir :=
   if buf.length < 120 then .panic "Directory::from_slice: slice index"
   else
-    match decodeName64 (buf.take 64) with
-    | none => .panic "unmodelled: UTF-8 BOM in a directory name"
-    | some cs =>
-      if sectorSize = 512 then
-        if buf.length < 124 then .panic "Directory::from_slice: read_u32"
-        else .ok ⟨untilNul cs, u32At buf 116, u32At buf 120⟩
-      else
-        if buf.length < 128 then .panic "Directory::from_slice: slice index"
-        else .ok ⟨untilNul cs, u32At buf 116, u64At buf 120⟩
+    let cs := decodeName64 (buf.take 64)
+    if sectorSize = 512 then
+      if buf.length < 124 then .panic "Directory::from_slice: read_u32"
+      else .ok ⟨untilNul cs, u32At buf 116, u32At buf 120⟩
+    else
+      if buf.length < 128 then .panic "Directory::from_slice: slice index"
+      else .ok ⟨untilNul cs, u32At buf 116, u64At buf 120⟩
 
 /-- `slice.chunks_exact(n)`: the whole chunks only (a shorter remainder is dropped) -/
 def chunksAux (n : Nat) : Nat → Bytes → List Bytes
